@@ -1,0 +1,65 @@
+//go:build verif
+
+package diff
+
+// Read-only accessors for the verification harness (build tag `verif`).
+// Nothing here is compiled into a normal build.
+
+// VerifCodeStrings returns copies of the short and long SpecChangeCode string tables.
+func VerifCodeStrings() (short, long map[int]string) {
+	short = map[int]string{}
+	long = map[int]string{}
+	for k, v := range toStringSpecChangeCode {
+		short[int(k)] = v
+	}
+	for k, v := range toLongStringSpecChangeCode {
+		long[int(k)] = v
+	}
+	return
+}
+
+// VerifCodeIDs returns a copy of the inverse table built in init.
+func VerifCodeIDs() map[string]int {
+	out := map[string]int{}
+	for k, v := range toIDSpecChangeCode {
+		out[k] = int(v)
+	}
+	return out
+}
+
+// VerifCompatStrings returns copies of the Compatibility string table and its inverse.
+func VerifCompatStrings() (fwd map[int]string, inv map[string]int) {
+	fwd = map[int]string{}
+	inv = map[string]int{}
+	for k, v := range toStringCompatibility {
+		fwd[int(k)] = v
+	}
+	for k, v := range toIDCompatibility {
+		inv[k] = int(v)
+	}
+	return
+}
+
+// VerifCompatPolicy returns copies of the three compatibility maps.
+func VerifCompatPolicy() (forResponse, forRequest, forChange map[int]int) {
+	cp := func(m map[SpecChangeCode]Compatibility) map[int]int {
+		out := map[int]int{}
+		for k, v := range m {
+			out[int(k)] = int(v)
+		}
+		return out
+	}
+	return cp(compatibility.ForResponse), cp(compatibility.ForRequest), cp(compatibility.ForChange)
+}
+
+// VerifNumberWideness returns a copy of the numeric wideness table.
+func VerifNumberWideness() map[string]int {
+	out := map[string]int{}
+	for k, v := range numberWideness {
+		out[k] = v
+	}
+	return out
+}
+
+// VerifSchemaLocationKey exposes the recursion-guard key.
+func VerifSchemaLocationKey(l DifferenceLocation) string { return schemaLocationKey(l) }
